@@ -203,7 +203,8 @@ def rschema(rng, own, depth, budget):
     if not fields:
         fields.append(("x", ("L", "int", (None, None), 1)))
     if rng.random() < 0.5:
-        return ("S", own, fields, {"env": rng.choice(ENVS), "via": rng.choice(["attr", "item"])})
+        return ("S", own, fields, {"env": rng.choice(ENVS), "via": rng.choice(["attr", "item"]),
+                                   "probe": rng.random() < 0.5, "temp": rng.choice([None, None, "parent", "key"])})
     return ("S", own, fields)
 
 
@@ -373,6 +374,17 @@ FIXED = [
                         {"env": True, "via": "item"})),
                ("q", ("S", "q", [("name", L("str", (), None))], {"env": "X", "via": "attr"}))],
      {"env": "APP", "via": "item"}),
+    # bottom-up construction: sub-schemas populated and READ (ref paths, enumeration, parser) before they are attached,
+    # attached to a throw-away parent / under an earlier key first (last attachment wins)
+    ("S", "", [("a", L("int", (None, None), 1)),
+               ("db", ("S", "db", [("host", L("str", (), "h")),
+                                   ("tls", ("S", "tls", [("on", L("bool", (), True)),
+                                                         ("deep", ("S", "deep", [("n", L("int", (0, 9), 1))], {"probe": True}))],
+                                            {"probe": True, "temp": "parent"}))],
+                       {"probe": True})),
+               ("flag", L("bool", (), False)),
+               ("web", ("S", "web", [("port", L("int", (0, None), 80)), ("v", L("virtual", (42, False)))],
+                        {"probe": True, "temp": "key"}))]),
     # keys that are public members of Schema / of Config
     ("S", "", [("validator", L("int", (None, None), 1)), ("make_type", L("bool", (), True)),
                ("upload", ("S", "upload", [("validator", L("str", (), "v")), ("get_all_fields", L("bool", (), None)),
@@ -399,7 +411,7 @@ def generate(rng, tier):
     sub1 = FIXED[1][2][2][1]
     cases.append(make_case(det, sub1, [""], "argv"))
     cases.append(make_case(det, sub1[2][1][1], ["", "sub"], "argv"))
-    cases.append(make_case(det, FIXED[8][2][1][1], ["root"], "empty"))
+    cases.append(make_case(det, FIXED[9][2][1][1], ["root"], "empty"))
     n = 1000 if tier == "quick" else 12000
     while len(cases) < n:
         r = rng.random()
@@ -436,6 +448,18 @@ def _err(e):
     return ("err", "other")
 
 
+def probe_names(sub):
+    """read every way of naming the fields of a (possibly still detached) schema"""
+    import cincoconfig as cc
+    try:
+        for _, _, f in cc.get_all_fields(sub):
+            cc.item_ref_path(f)
+        cc.item_ref_path(sub)
+        cc.generate_argparse_parser(sub)
+    except Exception:  # noqa
+        pass
+
+
 def build_impl(node, own=None, all_schemas=None):
     """node -> Schema (fields added through attribute assignment, the documented way)"""
     import cincoconfig as cc
@@ -451,11 +475,37 @@ def build_impl(node, own=None, all_schemas=None):
             s[key] = f
         else:
             setattr(s, key, f)
-    for key, ch in node[2]:
+
+    def prebuild(ch):
+        """a sub-schema fully populated BEFORE it is attached; optionally every naming route is read on it
+        while it is still detached, and it is first attached to a throw-away parent"""
+        sub = build_impl(ch, None, all_schemas)
+        co = opts_of_node(ch)
+        if co.get("probe"):
+            probe_names(sub)
+        if co.get("temp") == "parent":
+            tmp = cc.Schema(key="tmp")
+            setattr(tmp, "k1", sub)
+            probe_names(sub)
+        return sub
+
+    pending = {}
+    fields = node[2]
+    for idx, (key, ch) in enumerate(fields):
         if ch[0] == "S":
-            sub = build_impl(ch, None, all_schemas)
+            sub = pending.pop(key) if key in pending else prebuild(ch)
             register(key, sub)
-        elif ch[0] == "T":
+            continue
+        # a later sibling sub-schema is first attached under THIS key, read, and then this key is overwritten by
+        # its real field; the sub-schema is attached under its own key when its turn comes (last attachment wins)
+        for k2, ch2 in fields[idx + 1:]:
+            if ch2[0] == "S" and opts_of_node(ch2).get("temp") == "key" and k2 not in pending:
+                sub2 = prebuild(ch2)
+                register(key, sub2)
+                probe_names(sub2)
+                pending[k2] = sub2
+                break
+        if ch[0] == "T":
             t = build_impl(ch[1], None, all_schemas)
             register(key, cc.make_type(t, "TT"))
         else:
@@ -548,6 +598,7 @@ def _impl(c):
             nxt = cc.Schema()
             setattr(cur, k, nxt)
             cur = nxt
+        probe_names(handed)
         setattr(cur, c["schema"][1], handed)
     tables = [(s, list(s._fields)) for s in schemas]
 
@@ -828,6 +879,10 @@ def tags(c, obs):
         if n[0] == "S":
             if len(n) > 3:
                 out.add("env=%r/%s" % (n[3].get("env"), n[3].get("via")))
+                if n[3].get("probe"):
+                    out.add("read-before-attach")
+                if n[3].get("temp"):
+                    out.add("reattached=" + n[3]["temp"])
             for _, ch in n[2]:
                 out |= envs(ch)
         return out
